@@ -158,6 +158,19 @@ def expiryInvolved (op : Op) (pre : DB) : Bool :=
     | some r => r.etime.isSome
     | none => false)
 
+/-- C19, last clause: the type and expiry reported by the key lookup are what the operation
+established according to the specification. `none` where the specification does not decide. -/
+def typeEtimeTruthful (inTx : Bool) (op : Op) (now : Int) (pre post : DB) (res : Out) : Option Bool :=
+  let r := step op now (abs now pre)
+  if isSkip r.out then none
+  else if inTx && isErr res then none
+  else
+    match op with
+    | .keyDeleteExpired _ | .zInterStore .. | .zUnionStore .. | .keyScan .. => none
+    | _ =>
+      let proj (s : State) := s.map (fun e => (e.1, e.2.val.ty, e.2.etime))
+      some (decide (proj (abs now post) = proj (purge now r.st)))
+
 /-- which parts of the final tables differ between two runs (model vs implementation) -/
 def diffParts (a b : DB) : List String :=
   let ka := a.keys
